@@ -163,8 +163,8 @@ def run_check(prop, tier, seed, keep=False):
                         known_hits.append((sig, hit[0].get('what', '')))
                         continue
                     rp = os.path.join(VERIF, 'replays', '%s-%d-%02d-%d.json' % (prop, seed, si, eid))
-                    prefix = [e for e in events[:eid - 1] if e['a'] in registry.STATEFUL] \
-                        if not ev.get('session') else [e for e in events[:eid - 1] if e.get('session') == ev.get('session')]
+                    prefix = [e for e in events[:eid - 1] if e['a'] in registry.STATEFUL
+                              or (ev.get('session') and e.get('session') == ev.get('session'))]
                     json.dump({'property': prop, 'clause': r['clause'], 'signature': sig, 'seed': seed, 'tier': tier,
                                'shard': si, 'event': ev, 'prefix': prefix[-400:], 'trace_module': module},
                               open(rp, 'w'))
